@@ -234,6 +234,8 @@ func (c *Conf) InitFromBytes(content []byte) error {
 		switch t := token.(type) {
 		case xml.CharData:
 			lineDecoder := bufio.NewScanner(bytes.NewReader(t))
+			// a line may be longer than bufio.MaxScanTokenSize; never drop it (and what follows) silently
+			lineDecoder.Buffer(nil, len(t)+1)
 			lineDecoder.Split(bufio.ScanLines)
 			for lineDecoder.Scan() {
 				line := strings.Trim(lineDecoder.Text(), whiteSpaceChars)
